@@ -1016,9 +1016,9 @@ pub fn run(opts: &Opts, cfg_b: bool) -> Option<Stats> {
         });
         total.merge(sw);
     }
-    // ---- phase 5 (C08 only): consecutive calls sharing ONE InterruptibilityState via reborrow() ----
+    // ---- phase 5 (C08: bounds; C04: every call returns): consecutive calls sharing ONE InterruptibilityState via reborrow() ----
     #[cfg(feature = "b")]
-    if prop == "C08" && cfg_b {
+    if (prop == "C08" || prop == "C04") && cfg_b {
         let scases = ((if opts.tier == Tier::Quick { 30_000 } else { 600_000 }) as f64 * opts.scale) as u64;
         let gprof = plan_ref.gprof;
         let ss = par_for(opts.jobs, scases, 64, Some(deadline), |st: &mut Stats, i: u64, _slot: &Slot| {
@@ -1035,7 +1035,7 @@ pub fn run(opts: &Opts, cfg_b: bool) -> Option<Stats> {
             if gs.n >= 2 && made >= 2 {
                 st.distinct_insert(crate::runner::hash_of(&(crate::runner::hash_of(&gs), i)));
             }
-            for v in &out {
+            for v in out.iter().filter(|v| v.prop == prop) {
                 st.violation(v, format!("g={}|shared_state_seed={}", gs.encode(), mix(seed, i)), String::new());
             }
         });
